@@ -1086,6 +1086,9 @@ def extra_c12(pid, tier, seed, workdir, known, write_replay):
             else:
                 counts[f"{fin}:accepted-values-seen"] = counts.get(f"{fin}:accepted-values-seen", 0) + 1
             continue
+        if any(isinstance(x, list) and x and x[0] == "oracle-panic" for x in rest):
+            counts["oracle-panic(naga process_overrides asserts)"] = counts.get("oracle-panic(naga process_overrides asserts)", 0) + 1
+            continue
         rej = next((x for x in rest if isinstance(x, list) and x and x[0] == "rejected"), None)
         if rej is None:
             counts["unreadable:" + str(rest[:1])] = counts.get("unreadable:" + str(rest[:1]), 0) + 1
